@@ -4,13 +4,15 @@ from harness.props._common import run_eval, replay_eval
 from harness import monitors
 
 PROPS_FILE = "P_C04"
-COQ_TARGETS = ["CaseLib", "CaseLibMcx", "LdmcsuModel", "QdmcuModel", "LdmcuInst", "AbcModel"]
+COQ_TARGETS = ["CaseLib", "CaseLibMcx", "LdmcsuModel", "QdmcuModel", "LdmcuInst", "AbcModel", "LdmcsuEig"]
 RULE = ("contract monitors: every call of Qdmcu.custom_sqrtm (V unitary, V V = U: premises of C04_barenco_step) and of "
         "Ldmcsu._compute_gate_a (A unitary, (A^dagger X A X)^2 = U: conclusion of C04_gate_a_fourth_root in matrix form) made while "
         "building gates for boundary and random SU(2)/U(2) matrices and 2..6/9 controls is checked numerically at 1e-9; gate-list "
         "correspondence: the flattened definition of Ldmcsu(U, k, ctrl_state) for U with a real main or secondary diagonal, k = 2..12/24, "
         "is compared inside Coq (vm_compute) with LdmcsuModel.ldmcsu k pattern hconj, and the 2x2 premises of C04_ldmcsu_plain/_hconj "
-        "(A^dagger A = I, (A^dagger X A X)^2 = U or H U H) are checked on the A the code computed; the flattened definition of "
+        "(A^dagger A = I, (A^dagger X A X)^2 = U or H U H) are checked on the A the code computed; for SU(2) matrices with both diagonals complex "
+        "(eigenbasis branch, k = 2..12/24) the flattened definition is compared with LdmcsuEig.eig and the four 2x2 identities that are the "
+        "premises of C04_ldmcsu_eig are checked on the emitted one-qubit gates; the flattened definition of "
         "Qdmcu(U, n, ctrl_state), n = 1..9/16, U(2) boundary and Haar matrices, is compared inside Coq with QdmcuModel.qdmcu (controlled V / "
         "V^dagger gates named by the custom_sqrtm iterate their base matrix equals, each checked to be the ideal controlled matrix; the "
         "premises of C04_qdmcu - V_(l+1)^2 = V_l, unitarity - are checked on the iterates); the flattened definition of Ldmcu(U, T, ctrl_state), "
@@ -22,7 +24,7 @@ RULE = ("contract monitors: every call of Qdmcu.custom_sqrtm (V unitary, V V = U
         "control pattern and boundary matrix. distinct = distinct (class, matrix, controls, pattern); non-trivial = k >= 2")
 ASSUMPTIONS = ["Qiskit's UnitaryGate(...).control(...) is the ideal controlled gate (validated numerically in the direct evaluation)",
                "the 2x2 identities that are premises of C04_qdmcu / C04_ldmcsu_* (square roots, unitarity) are checked numerically on the matrices the code computes",
-               "Ldmcsu's eigenbasis branch (complex diagonals), MCU's truncated ladder and "
+               "MCU's truncated ladder and "
                "MultiTargetMCSU2 are evaluated, not proved"]
 TRUSTED = ["harness/monitors.py"]
 X = np.array([[0, 1], [1, 0]], dtype=complex)
@@ -444,9 +446,94 @@ def abc_correspondence(ctx):
     run_bool_cases(ctx, "c04_abc", AHEADER, lines, cases, on_fail, shard=12)
 
 
+EHEADER = AHEADER.replace("AbcModel.", "AbcModel LdmcsuModel LdmcsuEig.")
+
+
+def eig_correspondence(ctx):
+    """Ldmcsu(U, k, ctrl_state) for SU(2) matrices with both diagonals complex (eigenbasis branch, k >= 2): the flattened definition is
+    compared inside Coq with LdmcsuEig.eig k pattern; the one-qubit gates are named in order of first appearance (H, S, S^dagger, the
+    Hadamard-like gate, A, A^dagger) and the four 2x2 identities that are the premises of C04_ldmcsu_eig are checked numerically."""
+    from cmath import isclose
+    from qclib.gates.ldmcsu import Ldmcsu
+    from harness.flatten import flatten, coq_list, coq_bool
+    from harness.coqcases import run_bool_cases
+    from harness.props.c05 import pat_of, sgates_to_coq
+    kmax = 12 if ctx.quick else 24
+    Hm = np.array([[1, 1], [1, -1]], dtype=complex) / np.sqrt(2)
+    cases, lines = [], []
+
+    def rz(t):
+        return np.diag([np.exp(-1j * t / 2), np.exp(1j * t / 2)])
+
+    def ry(t):
+        return np.array([[np.cos(t / 2), -np.sin(t / 2)], [np.sin(t / 2), np.cos(t / 2)]], dtype=complex)
+
+    def Xp(q):
+        return X if q else np.eye(2)
+    for k in range(2, kmax + 1):
+        for rep in range(4 if k <= 8 else 2):
+            a, b, c = ctx.rng.uniform(-3, 3, 3)
+            U = rz(a) @ ry(b) @ rz(c)
+            if rep == 1:
+                U = rz(a) @ ry(1e-3 * b) @ rz(c)          # nearly diagonal
+            sec_real = isclose(U[0, 1].imag, 0.0) and isclose(U[1, 0].imag, 0.0)
+            main_real = isclose(U[0, 0].imag, 0.0) and isclose(U[1, 1].imag, 0.0)
+            if sec_real or main_real:
+                continue
+            cs = None if ctx.rng.random() < 0.3 else "".join("1" if ctx.rng.random() < 0.5 else "0" for _ in range(k))
+            g = Ldmcsu(U, k, ctrl_state=cs)
+            fl, _ = flatten(g.definition)
+            case = {"class": "Ldmcsu", "k": k, "ctrl_state": cs, "mat_family": "complex_diagonals", "matrix": [[str(z) for z in row] for row in U]}
+            cases.append(case)
+            ctx.count("corr:ldmcsu:eigenbasis", key=("eig", k, cs, U.tobytes()), nontrivial=True,
+                      sample={"class": "Ldmcsu", "k": k, "ctrl_state": cs, "branch": "eigenbasis", "gates": len(fl)} if k == 6 else None)
+            ctx.max_struct_qubits = max(ctx.max_struct_qubits, k + 1)
+            ones = [np.asarray(op.to_matrix()) for name, qs, op in fl if name == "unitary" and len(qs) == 1]
+            mats = {0: Hm}
+            for i, Mx in enumerate(ones[:5]):
+                mats[i + 1] = Mx
+            idxs = sorted(mats)
+            rep_of = {}
+            for n_i, a_ in enumerate(idxs):
+                rep_of[a_] = next(b_ for b_ in idxs[:n_i + 1] if np.abs(mats[a_] - mats[b_]).max() < 1e-13)
+            table = coq_list([f"({a_}, {rep_of[a_]})" for a_ in idxs])
+            items = []
+            for name, qs, op in fl:
+                if name == "h":
+                    items.append(f"AU {rep_of[0]} {qs[0]}")
+                elif name == "unitary" and len(qs) == 1:
+                    Mx = np.asarray(op.to_matrix())
+                    best = min(idxs, key=lambda a_: np.abs(Mx - mats[a_]).max())
+                    items.append(f"AU {rep_of[best]} {qs[0]}" if np.abs(Mx - mats[best]).max() < 1e-12 else f"AU 99999 {qs[0]}")
+                else:
+                    items.append("AS (" + sgates_to_coq([(name, qs, op)])[1:-1] + ")")
+            ctx.monitor("ldmcsu_eig_theorem_premises")
+            if len(mats) == 6:
+                M = mats
+
+                def Wf(q1, q2):
+                    seq = [M[0], M[2], Xp(q2), M[1], M[3], Xp(q1), M[5], Xp(q2), M[4], Xp(q1), M[5], Xp(q2), M[4], M[3], M[2], Xp(q2), M[1], M[0]]
+                    out = np.eye(2, dtype=complex)
+                    for m_ in seq:
+                        out = out @ m_
+                    return out
+                err = max(np.abs(Wf(1, 1) - U).max(), np.abs(Wf(1, 0) - np.eye(2)).max(), np.abs(Wf(0, 1) - np.eye(2)).max(),
+                          np.abs(Wf(0, 0) - np.eye(2)).max())
+                if err > 1e-9:
+                    ctx.mismatch(f"C04 contract: the one-qubit gates of the eigenbasis branch of Ldmcsu do not satisfy the four 2x2 identities "
+                                 f"(premises of C04_ldmcsu_eig), off by {err:.1e}", case)
+            model = f"(map (cag {table}) (eig {k} {coq_list([coq_bool(b_) for b_ in pat_of(cs, k)])}))"
+            lines.append(f"(list_eqb ag_eqb {model} {coq_list(items)})")
+
+    def on_fail(c):
+        ctx.mismatch("C04 correspondence: flattened Ldmcsu definition (eigenbasis branch) differs from the Coq model LdmcsuEig.eig", c)
+    run_bool_cases(ctx, "c04_eig", EHEADER, lines, cases, on_fail, shard=12)
+
+
 def run(ctx):
     monitor_run(ctx)
     ldmcsu_correspondence(ctx)
+    eig_correspondence(ctx)
     qdmcu_correspondence(ctx)
     ldmcu_correspondence(ctx)
     abc_correspondence(ctx)
@@ -462,7 +549,7 @@ def replay(ctx, case):
 
 
 MANIFEST = dict(
-    text="Proof (PARTIAL): LdMcSpecialUnitary end to end for every k >= 1 controls and every pattern given the ABC identities on the matrices (C04_ldmc_special: controlled C, LinearMcx onto the target borrowing the last control - action_only from six controls on -, controlled B, the inverse LinearMcx, controlled A, each controlled gate a nested a ; cx ; b ; cx ; c block); Ldmcu end to end for every T >= 1 controls, every control pattern and every invertible W (C04_ldmcu): the gate list in the order the code emits it - four sweeps of controlled RX(+-pi/2^e) and controlled roots of U over the pairs (control, target) sorted stably by control + target - applies W^(2^(T-1)) = U to the target exactly on the matching basis states and restores every control with its phase; proof = trace equivalence of the sorted sweeps with their grouped form (Resort.resort), merging of the gates of one target in a one-parameter group, the cascade 'flip qubit j iff all lower qubits are 1' by induction (LdmcuCore.Sl_sem, Sl'_sem) and the weight identity C04_ldmcu_weights; Qdmcu end to end for every number of controls, every control pattern and every 2x2 matrix family with V_(l+1)^2 = V_l, V_l V_l^dagger = 1: the gate list of QdmcuModel.qdmcu (controlled V, action-only LinearMcx on the lower controls with the target as dirty ancilla, controlled V^dagger, the inverse LinearMcx, recursion on the remaining controls with the next square root) applies U to the target exactly on the basis states matching the pattern and the identity elsewhere (C04_qdmcu; it rests on the exact LinearMcx for every k >= 1 and every pattern, C04_linear_mcx_exact, on the factorisation exact = controls-only circuit after action-only, and on a polarity version of Barenco Lemma 7.5); the spectral square root squares to the matrix (C04_spectral_sqrt); the recursion step of Qdmcu (Barenco Lemma 7.5) for any placement and any 'rest' predicate (C04_barenco_step), and the fourth-root identity of Ldmcsu._compute_gate_a over the reals (C04_gate_a_fourth_root); Ldmcsu end to end for every k >= 2, every control pattern and every SU(2) matrix with a real main or secondary diagonal: the gate list of LdmcsuModel.ldmcsu (two dirty V-chains, their inverses, A / A^dagger, optional H conjugation) applies U to the target exactly on the basis states matching the pattern and the identity elsewhere (C04_ldmcsu_plain, C04_ldmcsu_hconj, built on C05's placed V-chain theorems). Tie: the flattened Ldmcu, Ldmcsu, LdMcSpecialUnitary and Qdmcu definitions are compared with the models' gate lists inside Coq; every custom_sqrtm and _compute_gate_a call made while building gates for boundary and random SU(2) matrices is checked against the theorem's premises/conclusion in matrix form. All gate classes (Ldmcu, Ldmcsu, LdMcSpecialUnitary, Qdmcu, Mcg, MCU, MultiTargetMCSU2), patterns and boundary matrices are evaluated against the ideal controlled operator.",
-    note='Modelled, not verified: Qiskit .control(), UnitaryGate; scipy schur inside custom_sqrtm (its output is checked, not modelled) and inside Ldmcu._gate_u (its roots are checked to be integer powers of the deepest root); Ldmcsu eigenbasis branch, the ZYZ angles behind the ABC operators (their identities are checked), MCU bound, multi-target variant are evaluated only.',
+    text="Proof (PARTIAL): Ldmcsu's eigenbasis branch (both diagonals complex) for every k >= 2 and every pattern, given four 2x2 identities on the emitted one-qubit gates (C04_ldmcsu_eig: the action_only V-chain and its inverse cancel their residue across the gates between them); LdMcSpecialUnitary end to end for every k >= 1 controls and every pattern given the ABC identities on the matrices (C04_ldmc_special: controlled C, LinearMcx onto the target borrowing the last control - action_only from six controls on -, controlled B, the inverse LinearMcx, controlled A, each controlled gate a nested a ; cx ; b ; cx ; c block); Ldmcu end to end for every T >= 1 controls, every control pattern and every invertible W (C04_ldmcu): the gate list in the order the code emits it - four sweeps of controlled RX(+-pi/2^e) and controlled roots of U over the pairs (control, target) sorted stably by control + target - applies W^(2^(T-1)) = U to the target exactly on the matching basis states and restores every control with its phase; proof = trace equivalence of the sorted sweeps with their grouped form (Resort.resort), merging of the gates of one target in a one-parameter group, the cascade 'flip qubit j iff all lower qubits are 1' by induction (LdmcuCore.Sl_sem, Sl'_sem) and the weight identity C04_ldmcu_weights; Qdmcu end to end for every number of controls, every control pattern and every 2x2 matrix family with V_(l+1)^2 = V_l, V_l V_l^dagger = 1: the gate list of QdmcuModel.qdmcu (controlled V, action-only LinearMcx on the lower controls with the target as dirty ancilla, controlled V^dagger, the inverse LinearMcx, recursion on the remaining controls with the next square root) applies U to the target exactly on the basis states matching the pattern and the identity elsewhere (C04_qdmcu; it rests on the exact LinearMcx for every k >= 1 and every pattern, C04_linear_mcx_exact, on the factorisation exact = controls-only circuit after action-only, and on a polarity version of Barenco Lemma 7.5); the spectral square root squares to the matrix (C04_spectral_sqrt); the recursion step of Qdmcu (Barenco Lemma 7.5) for any placement and any 'rest' predicate (C04_barenco_step), and the fourth-root identity of Ldmcsu._compute_gate_a over the reals (C04_gate_a_fourth_root); Ldmcsu end to end for every k >= 2, every control pattern and every SU(2) matrix with a real main or secondary diagonal: the gate list of LdmcsuModel.ldmcsu (two dirty V-chains, their inverses, A / A^dagger, optional H conjugation) applies U to the target exactly on the basis states matching the pattern and the identity elsewhere (C04_ldmcsu_plain, C04_ldmcsu_hconj, built on C05's placed V-chain theorems). Tie: the flattened Ldmcu, Ldmcsu, LdMcSpecialUnitary and Qdmcu definitions are compared with the models' gate lists inside Coq; every custom_sqrtm and _compute_gate_a call made while building gates for boundary and random SU(2) matrices is checked against the theorem's premises/conclusion in matrix form. All gate classes (Ldmcu, Ldmcsu, LdMcSpecialUnitary, Qdmcu, Mcg, MCU, MultiTargetMCSU2), patterns and boundary matrices are evaluated against the ideal controlled operator.",
+    note='Modelled, not verified: Qiskit .control(), UnitaryGate; scipy schur inside custom_sqrtm (its output is checked, not modelled) and inside Ldmcu._gate_u (its roots are checked to be integer powers of the deepest root); numpy eig inside the eigenbasis branch of Ldmcsu (the identities it must deliver are checked), the ZYZ angles behind the ABC operators (their identities are checked), MCU bound, multi-target variant are evaluated only.',
     technique='Coq proof (operator algebra on monomial/permuted states; trace equivalence of commuting gate orders; one-parameter groups; real sqrt algebra) + runtime contract monitors + operator / random-state evaluation',
     design_ref='DESIGN.md section 4, C04')
